@@ -46,6 +46,7 @@ let rec to_exp = function
   | L [A "rep"; plus; sep; omit; e] -> Rep (to_bool plus, to_opt to_exp sep, to_bool omit, to_exp e)
   | L [A "look"; neg; e] -> Look (to_bool neg, to_exp e)
   | L [A "skipto"; e] -> SkipTo (to_exp e)
+  | L [A "assoc"; lft; e] -> Assoc (to_bool lft, to_exp e)
   | L [A "call"; r] -> Call (to_nat r)
   | L [A "named"; il; n; e] -> Named (to_bool il, to_str n, to_exp e)
   | L [A "over"; il; e] -> Over (to_bool il, to_exp e)
